@@ -551,7 +551,12 @@ EvSwitch(mode, t, p, i) ==
 EvCheck(t0, p) ==
   LET g == TGet(t0, p.sub, 1) IN
   IF ~g.ok THEN Fail({"PathAccessError"}, <<>>)
-  ELSE IF \E i \in 1..Len(p.vals) : EqRaises(g.v, p.vals[i]) THEN Fail({"TypeError"}, <<>>)     \* `in` compares with ==
+  ELSE IF \E i \in 1..Len(p.vals) : EqRaises(g.v, p.vals[i]) THEN
+    \* `in` compares with ==, and that == raises: the TypeError comes out -- unless another
+    \* condition fails too: which of the two is met first (default / CheckError or the TypeError)
+    \* depends on an order of the conditions that the documentation leaves open
+    LET rest == [p EXCEPT !.vals = <<>>, !.types = IF p.types = <<>> /\ p.inst = <<>> /\ p.validate = <<>> THEN <<PyType(g.v)>> ELSE @]
+    IN [Fail({"TypeError"}, <<>>) EXCEPT !.amb = ~CheckHolds(g.v, rest)]
   ELSE
   LET t == g.v
       raising == \E i \in 1..Len(p.validate) : ~PredRet(p.validate[i].name, t).ok
